@@ -202,7 +202,63 @@ def gen_tokens():
     return {"variants": len(variants), "literals": len(literals), "regexes": len(regexes)}
 
 
-GENERATORS = [("GenTokens", gen_tokens)]
+# ------------------------------------------------------------------------------------------
+# lsp_project.rs -> GenLegend.v
+# ------------------------------------------------------------------------------------------
+def gen_legend():
+    variants, _, _ = parse_tokens()
+    src = read("compiler/plc2x/src/lsp_project.rs")
+    m = re.search(r"pub const TOKEN_TYPE_LEGEND: \[SemanticTokenType; (\d+)\] = \[(.*?)\];", src, re.S)
+    if not m:
+        raise Refuse("lsp_project.rs: TOKEN_TYPE_LEGEND not found")
+    names = re.findall(r"SemanticTokenType::([A-Z_]+)", m.group(2))
+    if len(names) != int(m.group(1)):
+        raise Refuse("lsp_project.rs: legend length mismatch")
+    consts = dict((k, int(v)) for k, v in re.findall(r"const ([A-Z_]+_INDEX): u32 = (\d+);", src))
+    m = re.search(r"let token_type = match val\.0\.token_type \{\n(.*?)\n        \};", src, re.S)
+    if not m:
+        raise Refuse("lsp_project.rs: token type match not found")
+    arms = {}
+    for line in m.group(1).split("\n"):
+        line = line.strip()
+        if not line or line.startswith("//"):
+            continue
+        a = re.match(r"^TokenType::([A-Za-z0-9]+) => (None|Some\(([A-Z_]+)\)),$", line)
+        if not a:
+            raise Refuse("lsp_project.rs: unexpected match arm %r" % line)
+        if a.group(1) in arms:
+            raise Refuse("lsp_project.rs: duplicate arm %s" % a.group(1))
+        if a.group(2) == "None":
+            arms[a.group(1)] = None
+        else:
+            if a.group(3) not in consts:
+                raise Refuse("lsp_project.rs: unknown index constant %s" % a.group(3))
+            arms[a.group(1)] = consts[a.group(3)]
+    for v in variants:
+        if v not in arms:
+            raise Refuse("lsp_project.rs: no arm for %s" % v)
+    # the fields of the emitted SemanticToken
+    m = re.search(r"token_type\.map\(\|token_type\| SemanticToken \{(.*?)\}\)", src, re.S)
+    if not m:
+        raise Refuse("lsp_project.rs: SemanticToken construction not found")
+    fields = [x.strip() for x in m.group(1).strip().split("\n")]
+    expect = ["delta_line: val.0.line as u32,", "delta_start: val.0.col as u32,", "length: val.0.text.len() as u32,",
+              "token_type,", "token_modifiers_bitset: 0,"]
+    if fields != expect:
+        raise Refuse("lsp_project.rs: SemanticToken fields changed: %r" % fields)
+    o = ["(* GENERATED by tools/translate.py from compiler/plc2x/src/lsp_project.rs -- do not edit *)",
+         "From Coq Require Import List NArith String.", "From Verif Require Import Gen.GenTokens.",
+         "Import ListNotations.", "Local Open Scope string_scope.", "",
+         "Definition legend : list string := [" + "; ".join(coq_string(n.lower()) for n in names) + "].", "",
+         "Definition legend_of (k : tok_kind) : option N :=", "  match k with"]
+    for v in variants:
+        o.append("  | %s => %s" % (kname(v), "None" if arms[v] is None else "Some %d%%N" % arms[v]))
+    o.append("  end.")
+    write_if_changed("GenLegend.v", "\n".join(o) + "\n")
+    return {"legend": names, "highlighted": sum(1 for v in variants if arms[v] is not None)}
+
+
+GENERATORS = [("GenTokens", gen_tokens), ("GenLegend", gen_legend)]
 
 
 def main():
